@@ -40,7 +40,7 @@ RULE = (
 ASSUMPTIONS = ['the S3 options (-b/-p/-s/-k) run against the fake S3 of C18',
                'inspect() output of the library is the reference for the inspect command (self-consistency)']
 MANDATORY = ['detect', 'inspect', 'merge', 'detect:s3', 'inspect:s3', 'merge:s3', 'merge:shape:completed-create', 'bad-file-not-last', 'missing-path', 'directory', 'completed-ro',
-             'merge:-o', 'merge:-i', 'merge:-n', 'merge:invalid-collection', 'merge:strict-failure',
+             'merge:-o', 'merge:-o=input-file', 'merge:-i', 'merge:-n', 'merge:invalid-collection', 'merge:strict-failure',
              'merge:no-input']
 
 
@@ -226,7 +226,11 @@ def judge_merge(case, root):
     if paths:
         argv += ['-f'] + paths
     outfile = None
-    if opts.get('o'):
+    if opts.get('o') == 'input' and paths:
+        # the output path is one of the input files (re-running `merge -f *.xml -o merged.xml`)
+        outfile = paths[opts.get('o_index', 0) % len(paths)]
+        argv += ['-o', outfile]
+    elif opts.get('o'):
         outfile = os.path.join(root, 'out', 'merged.xml')
         os.makedirs(os.path.dirname(outfile), exist_ok=True)
         argv += ['-o', outfile]
@@ -257,7 +261,7 @@ def judge_merge(case, root):
                  f'the library view is an error ({exp_err}) but the command returned {status!r}', 2, status)
         elif not err.strip():
             fail('error-without-message', f'status 2 but nothing on stderr ({exp_err})')
-        if outfile and os.path.exists(outfile) and exp_err != 'no-input':
+        if outfile and opts.get('o') != 'input' and os.path.exists(outfile) and exp_err != 'no-input':
             fail('output-written-on-error', 'an output file was written although the merge failed')
         return fails
     if status not in (None, 0):
@@ -351,7 +355,8 @@ def merge_case(draw):
         if draw(st.booleans()):
             files = [f for f in files if 'roDelete' not in f[1][:4000] or f is files[0]]
     files = list(draw(gen.permutation(files)))
-    opts = {'o': draw(st.booleans()), 'i': draw(st.booleans()), 'n': draw(st.booleans())}
+    opts = {'o': draw(st.sampled_from([False, True, True, 'input'])), 'i': draw(st.booleans()),
+            'n': draw(st.booleans()), 'o_index': draw(st.integers(0, 9))}
     return {'cmd': 'merge', 'files': files, 'opts': opts, 'shape': shape}
 
 
@@ -386,7 +391,7 @@ def shard(args):
         if not case['files'] or any(k in ('missing', 'dir') for k, _ in case['files']):
             return
         c = {'cmd': 'merge', 'files': case['files'], 'via': 's3', 'page_size': 2,
-             'opts': {'i': case['opts']['i'], 'n': case['opts']['n'], 's': case['opts']['o']}}
+             'opts': {'i': case['opts']['i'], 'n': case['opts']['n'], 's': bool(case['opts']['o'])}}
         col.record(c, True, ['merge', 'merge:s3'], rejudge(c), key=h64('s3m', str(case['files']), str(c['opts'])))
     drive.run_given(merge_case(), two_s3, max(5, n // 3), seed + 3)
 
@@ -395,6 +400,8 @@ def shard(args):
         for o in 'oin':
             if case['opts'].get(o):
                 cl.append(f'merge:-{o}')
+        if case['opts'].get('o') == 'input' and case['files']:
+            cl.append('merge:-o=input-file')
         if case['shape'] in ('two-creates',) or (case['shape'] == 'no-delete' and not case['opts']['i']):
             cl.append('merge:invalid-collection')
         if case['shape'] == 'strict-failure' and not case['opts']['n']:
